@@ -50,6 +50,9 @@ def lty(t):
 
 
 NUMERIC = ("Int", "Nat", "Rat", "Float")
+LEAN_KEYWORDS = {"include", "section", "end", "at", "from", "where", "open", "namespace", "variable", "universe", "import", "export", "in", "do", "then", "else", "if", "fun", "let",
+                 "have", "show", "match", "with", "instance", "class", "structure", "def", "theorem", "axiom", "example", "private", "protected", "local", "prefix", "infix", "notation",
+                 "macro", "syntax", "deriving", "extends", "mutual", "partial", "unsafe", "noncomputable", "attribute", "set_option", "calc", "by", "type", "Type", "Prop", "Sort", "return", "for", "unless"}
 
 
 def lstr(t):
@@ -657,6 +660,14 @@ class Proc(object):
         out = set()
         for s in stmts:
             for n in ast.walk(s):
+                # mutation of a list / stream through a method, `print(.., file=X)`, or a call that is handed a variable it may write to
+                if isinstance(n, ast.Expr) and isinstance(n.value, ast.Call):
+                    c = n.value
+                    if isinstance(c.func, ast.Attribute) and isinstance(c.func.value, ast.Name):
+                        out.add(c.func.value.id)
+                    for a in list(c.args) + [kw.value for kw in c.keywords]:
+                        if isinstance(a, ast.Name):
+                            out.add(a.id)
                 if isinstance(n, (ast.Assign, ast.AugAssign)):
                     for t in (n.targets if isinstance(n, ast.Assign) else [n.target]):
                         for m in ast.walk(t):
@@ -702,7 +713,7 @@ class Proc(object):
                 tmp = [env.fresh("tmp") for _ in vals]
                 out, en = "", env
                 for tname, (vt, _) in zip(tmp, vals):
-                    out += "let %s := %s\n" % (tname, vt)
+                    out += "let %s := %s;\n" % (tname, vt)
                 for el, tname, (_, vty) in zip(tgt.elts, tmp, vals):
                     en = self.assign_name(el, tname, vty, en)[1]
                     out += self.assign_name(el, tname, vty, env)[0]
@@ -724,7 +735,7 @@ class Proc(object):
                 lean = name.replace(".", "_")
                 txt = "[" + ", ".join("(%s, %s)" % (a[0], b[0]) for a, b in zip(keys, vals)) + "]"
                 en = env.bind(name, lean, ("Assoc", keys[0][1], vals[0][1]))
-                return "let %s : List (%s × %s) := %s\n%s" % (lean, lty(keys[0][1]), lty(vals[0][1]), txt, self.block(rest, en, k))
+                return "let %s : List (%s × %s) := %s;\n%s" % (lean, lty(keys[0][1]), lty(vals[0][1]), txt, self.block(rest, en, k))
             vt, vty = self.expr(s.value, env)
             if isinstance(vty, tuple) and vty[0] == "Except":
                 # binding the result of a raising proc: propagate the error
@@ -787,7 +798,7 @@ class Proc(object):
                     try:
                         after = self.block(rest, env, k)
                         j = env.fresh("k")
-                        return "let %s : Unit → %s := fun _ => %s\n%s" % (j, lty(self.ret), after, self.cond(
+                        return "let %s : Unit → %s := (fun _ => (%s));\n%s" % (j, lty(self.ret), after, self.cond(
                             s.test, env, lambda en: self.block(s.body, en, lambda _: "%s ()" % j), lambda en: self.block(s.orelse, en, lambda _: "%s ()" % j)))
                     except Untranslatable:
                         pass
@@ -801,9 +812,12 @@ class Proc(object):
         return self.ret[2] if self.ret[0] == "Except" else self.ret
 
     def assign_name(self, tgt, vt, vty, env):
-        if not isinstance(tgt, ast.Name):
+        if isinstance(tgt, ast.Attribute) and self.seg(tgt) in self.spec.get("attr_results", []):
+            name = self.seg(tgt)
+        elif not isinstance(tgt, ast.Name):
             raise Untranslatable("assignment target %s" % type(tgt).__name__)
-        name = tgt.id
+        else:
+            name = tgt.id
         declared = self.spec.get("locals", {}).get(name)
         if declared is None and name in env.vars and name in self.declared_types:
             declared = self.declared_types[name]
@@ -812,8 +826,8 @@ class Proc(object):
         elif vty in ("None", "EmptyList"):
             raise Untranslatable("type of local %s unknown (declare it)" % name)
         self.declared_types.setdefault(name, vty)
-        lean = env.fresh(name)
-        return "let %s : %s := %s\n" % (lean, lty(vty), vt), env.bind(name, lean, vty)
+        lean = env.fresh(name.replace(".", "_"))
+        return "let %s : %s := %s;\n" % (lean, lty(vty), vt), env.bind(name, lean, vty)
 
     def forloop(self, s, rest, env, k):
         if s.orelse or not isinstance(s.target, ast.Name):
@@ -861,6 +875,8 @@ class Proc(object):
         sig = "".join(" (%s : %s)" % (n, lty(t)) for n, t in self.fixed)
         for n, t in declared:
             ln = n.replace("self.", "self_")
+            if ln in LEAN_KEYWORDS:
+                ln = ln + "_"
             env.vars[n] = (ln, t)
             self.declared_types[n] = t
             sig += " (%s : %s)" % (ln, lty(t))
@@ -871,6 +887,14 @@ class Proc(object):
                 return self.wrap_ret("none", "None")
             if inner == "Unit":
                 return self.wrap_ret("()", "Unit")
+            if self.spec.get("attr_results"):
+                # a constructor-like method: its result is the attributes it set
+                parts = []
+                for a, w in zip(self.spec["attr_results"], inner[1:]):
+                    if a not in en.vars:
+                        raise Untranslatable("%s is not set on every path" % a)
+                    parts.append(self.coerce(en.vars[a][0], en.vars[a][1], w))
+                return self.wrap_ret("(" + ", ".join(parts) + ")", inner)
             if self.spec.get("inout"):
                 # a function that writes into a stream it was given returns the stream's new content
                 return self.wrap_ret(*en.vars[self.spec["inout"]])
@@ -955,6 +979,22 @@ PROCS = [
     # ---- C13: species filter
     dict(name="check_tuple", file="config/_filtered_config_parser.py", func="FilteredConfigParser._check_tuple",
          params=[("self._self_species_list", ("List", "Str")), ("self._self_exclude_flag", "Bool"), ("check_tuple", ("List", "Str"))], ret="Bool"),
+    dict(name="filter_init", file="config/_filtered_config_parser.py", func="FilteredConfigParser.__init__",
+         params=[("config_parser", "Unit"), ("exclude", ("Opt", ("List", "Str"))), ("include", ("Opt", ("List", "Str")))],
+         ret=("Except", "FilterErr", ("Prod", ("List", "Str"), "Bool")), raises=[("Both exclude and include", "FilterErr.bothGiven")],
+         skip_calls=["ObjectProxy.__init__"], attr_results=["self._self_species_list", "self._self_exclude_flag"]),
+    # ---- C16 / C18: [Table-Form] data
+    dict(name="parse_data", file="config/_config_parser.py", func="_TableFormSection._parse_data",
+         params=[("section_name", "Str"), ("section", ("List", "Str"))], ret=("Except", "TableErr", "Str"),
+         ops={"_parse_x_y": ("useXandY", ["Str", ("List", "Str")], "Str"), "_parse_xy": ("useXY", ["Str", ("List", "Str")], "Str")},
+         implicit=[("useXandY", ("Fun", ["Str", ("List", "Str")], "Str")), ("useXY", ("Fun", ["Str", ("List", "Str")], "Str"))],
+         raises=[("Did not find both", "TableErr.onlyOneOfXY"), ("Not both", "TableErr.bothForms"), ("neither", "TableErr.noData")]),
+    dict(name="parse_xy", file="config/_config_parser.py", func="_TableFormSection._parse_xy", given=["xy_string", "xy"], sig_from_locals=True,
+         params=[("xy", ("List", "Rat"))], ret=("Except", "TableErr", ("Prod", ("List", "Rat"), ("List", "Rat"))),
+         raises=[("is not even", "TableErr.oddCount")], locals={"x": ("List", "Rat"), "y": ("List", "Rat")}),
+    dict(name="parse_x_y", file="config/_config_parser.py", func="_TableFormSection._parse_x_y", given=["x_string", "y_string", "x", "y"], sig_from_locals=True,
+         params=[("x", ("List", "Rat")), ("y", ("List", "Rat"))], ret=("Except", "TableErr", ("Prod", ("List", "Rat"), ("List", "Rat"))),
+         raises=[("do not match", "TableErr.lengthMismatch")]),
     # ---- C11: [Tabulation] grid rules
     dict(name="check_positive", file="config/_config_parser.py", func="_TabulationCutoff._check_positive",
          params=[("nr", ("Opt", "Int")), ("dr", ("Opt", "Rat")), ("cutoff", ("Opt", "Rat"))], ret=("Except", "LogicErr", "Unit"),
@@ -1044,6 +1084,14 @@ def joinStreams : List (List Tok) → List Tok
   | [x] => x
   | x :: y :: rest => x ++ [sepTok] ++ joinStreams (y :: rest)
 
+inductive FilterErr where
+  | bothGiven
+deriving DecidableEq, Repr
+
+inductive TableErr where
+  | onlyOneOfXY | bothForms | noData | oddCount | lengthMismatch
+deriving DecidableEq, Repr
+
 inductive WErr where
   | notMultipleOfFour
 deriving DecidableEq, Repr
@@ -1101,6 +1149,13 @@ def prepare(spec, src, tree):
     fn = copy.deepcopy(find_function(tree, spec["func"], spec.get("nth", 0)))
     body = []
     for st in fn.body:
+        if isinstance(st, ast.Try) and len(st.body) == 1 and isinstance(st.body[0], ast.Assign) and len(st.body[0].targets) == 1 \
+                and isinstance(st.body[0].targets[0], ast.Name) and st.body[0].targets[0].id in spec.get("given", []):
+            continue          # `try: x = <conversion of the raw text>` - the converted value is a parameter of the translated function
+        if isinstance(st, ast.Assign) and len(st.targets) == 1 and isinstance(st.targets[0], ast.Name) and st.targets[0].id in spec.get("given", []):
+            continue
+        if isinstance(st, ast.Expr) and isinstance(st.value, ast.Call) and ast.unparse(st.value.func) in spec.get("skip_calls", []):
+            continue
         if isinstance(st, ast.Assign) and isinstance(st.value, ast.Call):
             f = st.value.func
             nm = f.id if isinstance(f, ast.Name) else (f.attr if isinstance(f, ast.Attribute) else None)
